@@ -486,11 +486,12 @@ fn main() {
         let seen_r = rt.block_on(add_node_gate(&rendered, k));
         match (control, seen_r) {
             (Ok(true), Ok(true)) => sum.count("add_node:gate-applied"),
-            (Ok(true), Ok(false)) => {
-                sum.count("add_node:gate-skipped-on-rendered-string");
-                sum.violation(id, "DhtCoreEngine::add_node applies its IP-diversity gate to \"ip:port\" but not to the library's rendering of the same address",
-                    &["add-node-address-suffix"], json!({"plain": plain, "rendered": rendered}));
-                sum.case(id, json!({"kind": "add_node", "tags": ["add-node-address-suffix"], "plain": plain, "rendered": rendered}));
+            (Ok(c), Ok(r)) => {
+                // the gate must see the socket address in BOTH forms (plain "ip:port" / "[v6]:port" and the library's rendering)
+                sum.count(if !c { "add_node:gate-skipped-on-plain-string" } else { "add_node:gate-skipped-on-rendered-string" });
+                sum.violation(id, "DhtCoreEngine::add_node does not apply its IP-diversity gate to an address string the library itself produces (routing-table admission does not read it as that socket address)",
+                    &[], json!({"plain": plain, "gate_applied_to_plain": c, "rendered": rendered, "gate_applied_to_rendered": r}));
+                sum.case(id, json!({"kind": "add_node", "plain": plain, "rendered": rendered, "gate_applied_to_plain": c, "gate_applied_to_rendered": r}));
                 id += 1;
             }
             (c, r) => { sum.discarded_ambiguous += 1; sum.notes.push(format!("add_node control inconclusive for {}: {:?} / {:?}", plain, c, r)); }
